@@ -7,7 +7,7 @@ from fractions import Fraction
 from .. import dag
 from ..pe import PE, Obj, PERaise
 from ..src import load
-from .c51 import mu2_table
+from .c51 import mu2_table, shortcut_rule
 
 LEVEL = "other"
 META = {
@@ -19,7 +19,7 @@ META = {
             "factor and uses unshifted couplings); intermediate segments that end on the wall of the next matching are flagged. "
             "(2) Operator.mu2 follows the documented table over (scheme, threshold flag) - a threshold segment of the "
             "exponentiated scheme still takes shifted couplings. (3) the identity shortcut for coinciding scales is taken in "
-            "exactly the cases in which the computed operator tends to the identity (C01 truth table, re-used). (4) the flags that "
+            "exactly the cases in which the computed operator tends to the identity (Operator.compute over scheme x ratio x threshold flag x four final scales, shared with C51: never on the coupling distance of the last expanded operator). (4) the flags that "
             "distinguish a final segment from a cliff segment with the same end points are part of the recipe's IDENTITY: "
             "recipes are de-duplicated through a set and parts are stored under the hash of their header, so a flag left out of "
             "equality/hash lets the segment of a target on a matching scale be answered by the cliff part another target needs. (5) every "
@@ -75,6 +75,9 @@ def run(chk):
     chk.floor("orderings", n_cases, 700)
     _flag_is_identity(chk, src)
     _couplings_nf(chk, src)
+    # the identity shortcut of Operator.compute is a window (isclose) in the target scale: inside it the operator is replaced by the
+    # exact identity, which is continuous only where the operator tends to the identity
+    shortcut_rule(chk, src, rule="identity-shortcut-only-where-the-operator-is-the-identity")
     n_tab = mu2_table(chk, src, pe, rule="segment-couplings-table")
     chk.floor("mu2 table rows", n_tab, 6)
     chk.note(cases=n_cases, files=["src/eko/runner/recipes.py", "src/eko/evolution_operator/__init__.py"])
